@@ -297,7 +297,7 @@ Contract(
     loops={0: LoopSpec("while True", _mcs_inv)},
     axioms=MCS_AXIOMS + RS_AXIOMS,
     properties=["C03", "C04", "C05", "C11", "C14", "C15"],
-    fuel=10,
+    fuel=5,
     impl_only=True,
     note="what the loop establishes (mcs_structural, with the recorded sets as ghost output); lemmas MCS.bridge and MCS.bridge2 derive the interface contract MCS from it; relative to RC2 / GVC / BLOCK",
 )
